@@ -653,6 +653,14 @@ class Gen:
             return f"({a} if {c} else {b})", "d"
         if k < 0.94 and "first" in self.allow:
             s = self.objseq(e, scope, d - 1)
+            if "index" in self.allow and self.r.random() < 0.35:
+                # an element by position (bounds-checked): of a sequence of objects, or of a number vector of the current object
+                self.q.feat.add("index")
+                i = self.r.choice([0, 0, 1, 2])
+                o = obj if obj is not None else (scope[-1] if scope else None)
+                if o is not None and self.r.random() < 0.4:
+                    return f"{o}.{self.r.choice(['vals', 'hits'])}()[{i}]", "d"
+                return f"{s}[{i}].{self.r.choice(self.u.dbl_methods)}()", "d"
             self.q.feat.add("first")
             return f"{s}.First().{self.r.choice(self.u.dbl_methods)}()", "d"
         if "aggregate" in self.allow:
